@@ -234,8 +234,9 @@ func init() {
 		Gen: genGeneric("C08", func(g *genCtx) {
 			noFaults(g)
 			g.ft.Decorators = false
-			g.ft.MaxScopes = g.r.Range(3, 6)
-			g.ft.MaxDepth = g.r.Range(1, 3)
+			g.ft.MaxScopes = g.r.Range(3, 7)
+			g.ft.MaxDepth = g.r.Range(1, 4)
+			g.ft.DeepBias = g.r.P(0.3)
 			g.ft.Export = g.r.P(0.7)
 			g.ft.PAvail = 0.9
 			g.ft.NT = g.r.Range(3, 5)
